@@ -693,6 +693,13 @@ fn main() {
         "selftest-determinism" => cmd_selftest(&a),
         "gen" => cmd_gen(&a),
         "eval" => cmd_eval(&a),
+        "words" => {
+            let xs = xeh::state::State::boot().unwrap();
+            for w in xs.word_list() {
+                println!("{}", w);
+            }
+            0
+        }
         _ => {
             eprintln!("usage: xehsim check --prop <id> --tier quick|thorough | replay <file> | selftest-determinism | gen --engine E --seed S --index I | eval <src>..");
             2
